@@ -90,3 +90,86 @@ Definition stride_span (el : Z) (s : sstride) : Z := (snd s - 1) * (fst s * el).
 Definition size_tsl_static (el : Z) (l : layout) : Z :=
   1 * (fold_left (fun acc s => acc + stride_span el (static_of s)) (all_strides l) 0 + el)
   + (match offset l with Some o => o | None => 0 end) * el.
+
+(* ---- AllocOpRewrite size for a (possibly dynamic) TSL layout ------------------------ *)
+(* TiledStridedLayoutAttr.get_bound_ops, evaluated: `dims` are the run-time values of the memref's shape
+   operands (one per dimension).  depth 0: the static bound, or dim /u prod(truthy bounds of the dimension);
+   depth >= 1: the static bound (the Python asserts it is not None -> None here). *)
+Definition bound0_ev (t : tstride) (dimv : Z) : Z :=
+  match t with
+  | s :: _ => match sbound s with Some b => b | None => dimv / bounds_prod t end
+  | [] => 0
+  end.
+Fixpoint inner_bounds_ev (t : tstride) : option (list Z) :=
+  match t with
+  | [] => Some []
+  | s :: r => match sbound s, inner_bounds_ev r with Some b, Some l => Some (b :: l) | _, _ => None end
+  end.
+Definition tile_bounds_ev (t : tstride) (dimv : Z) : option (list Z) :=
+  match t with
+  | [] => None                                   (* get_stride(dim, 0) raises IndexError *)
+  | _ :: r => match inner_bounds_ev r with Some l => Some (bound0_ev t dimv :: l) | None => None end
+  end.
+Fixpoint bounds_ev (ts : list tstride) (dims : list Z) : option (list (list Z)) :=
+  match ts, dims with
+  | [], _ => Some []
+  | t :: ts', d :: dims' =>
+      match tile_bounds_ev t d, bounds_ev ts' dims' with Some b, Some r => Some (b :: r) | _, _ => None end
+  | _ :: _, [] => None                           (* shapes.pop(0) on an empty list *)
+  end.
+
+(* get_step_ops(bound_ops, memref, in_bytes=True), evaluated, for a memref whose layout is the TSL itself.
+   flat = [(step, bound value)] in (dim, depth) order. *)
+Definition flat_t : Type := list (option Z * Z).
+(* max_key / max_value: first stride with the strictly largest truthy static step; default = last stride, 0 *)
+Fixpoint max_scan (fl : flat_t) (i : nat) (best_i : nat) (best_v : Z) : nat * Z :=
+  match fl with
+  | [] => (best_i, best_v)
+  | (st, _) :: r =>
+      if truthy st && (match st with Some v => v >? best_v | None => false end)
+      then max_scan r (S i) i (match st with Some v => v | None => 0 end)
+      else max_scan r (S i) best_i best_v
+  end.
+(* assign strides right to left: returns the steps in reversed flat order *)
+Fixpoint steps_rev (fl_rev : flat_t) (el dyn : Z) : list Z :=
+  match fl_rev with
+  | [] => []
+  | (Some v, _) :: r => (v * el) :: steps_rev r el dyn
+  | (None, b) :: r => dyn :: steps_rev r el (dyn * b)
+  end.
+Definition steps_ev (fl : flat_t) (el : Z) : list Z :=
+  let '(mi, mv) := max_scan fl 0 (length fl - 1) 0 in
+  let dyn0 := snd (nth mi fl (None, 0)) * (mv * el) in
+  rev (steps_rev (rev fl) el dyn0).
+
+Definition flatten_ev (ts : list tstride) (bs : list (list Z)) : flat_t :=
+  concat (map (fun p => combine (map sstep (fst p)) (snd p)) (combine ts bs)).
+
+(* total_size = 1 * (0 + sum (bound-1)*step_bytes + el) + offset*el ; None = the rewrite raises *)
+Definition size_tsl (el : Z) (l : layout) (dims : list Z) : option Z :=
+  match bounds_ev (tstrides l) dims, offset l with
+  | Some bs, Some off =>
+      let fl := flatten_ev (tstrides l) bs in
+      let steps := steps_ev fl el in
+      Some (1 * (fold_left (fun acc p => acc + (snd (fst p) - 1) * snd p) (combine fl steps) 0 + el) + off * el)
+  | _, _ => None
+  end.
+
+(* the static layout a dynamic layout denotes for given run-time dims (bounds instantiated) *)
+Definition inst_tile (t : tstride) (dimv : Z) : tstride :=
+  match t with
+  | (st, None) :: r => (st, Some (dimv / bounds_prod t)) :: r
+  | _ => t
+  end.
+Fixpoint inst_layout_ts (ts : list tstride) (dims : list Z) : list tstride :=
+  match ts, dims with
+  | t :: ts', d :: dims' => inst_tile t d :: inst_layout_ts ts' dims'
+  | _, _ => ts
+  end.
+Definition inst_layout (l : layout) (dims : list Z) : layout := mkLayout (inst_layout_ts (tstrides l) dims) (offset l).
+
+(* largest address (in elements) a static layout with non-negative steps can produce *)
+Definition max_addr (l : layout) : Z :=
+  fold_left (fun acc s => acc + (snd (static_of s) - 1) * fst (static_of s)) (all_strides l) 0.
+
+Definition optZ_eqb' := optZ_eqb.
